@@ -1,6 +1,6 @@
 (* C02 — no double spend or double resolution. *)
 From Coq Require Import ZArith List Bool.
-From Sia Require Import Prim.Result Prim.Tok Policy.Model Ledger.Types Ledger.Mid Ledger.Validate Ledger.Apply Ledger.Proofs Ledger.Spends Ledger.SpendsV1 Ledger.SpendsSF.
+From Sia Require Import Prim.Result Prim.Tok Policy.Model Ledger.Types Ledger.Mid Ledger.Validate Ledger.Apply Ledger.Proofs Ledger.Spends Ledger.SpendsV1 Ledger.SpendsSF Ledger.Persist.
 Import ListNotations.
 Open Scope Z_scope.
 
@@ -70,3 +70,46 @@ Theorem C02_mixed_block_no_double_spend_siafunds : forall H net vt pt se sd s b,
   NoDup (flat_map v1_sfi_ids (b_txns b) ++ flat_map sfi_ids (b_v2txns b)).
 Proof. exact mixed_block_no_double_spend_sf. Qed.
 Print Assumptions C02_mixed_block_no_double_spend_siafunds.
+
+(* ---- across blocks ---- *)
+(* an accepted block without v1 transactions and without expiring v1 contracts leaves every leaf that is marked spent
+   marked spent: no diff of the block rewrites a spent leaf as unspent (siacoin/siafund diffs with an assigned leaf are
+   spends; contract diffs with an assigned leaf are resolutions, or revisions of a contract validation saw live) *)
+Theorem C02_spent_persists : forall H net vt pt se sd s b s' m,
+  validate_block H net vt pt se sd s b = Ok tt -> apply_block net s b = Ok (s', m) ->
+  b_txns b = [] -> b_expiring b = [] -> forall k, SpentAt (s_leaves s) k -> SpentAt (s_leaves s') k.
+Proof. exact spent_persist. Qed.
+Print Assumptions C02_spent_persists.
+
+(* from the height at which v2 is required, every accepted and applied block is of that kind *)
+Theorem C02_v2_era_blocks : forall H net vt pt se sd s b s' m,
+  validate_block H net vt pt se sd s b = Ok tt -> apply_block net s b = Ok (s', m) -> ln_v2_require net <= child s ->
+  b_txns b = [] /\ b_expiring b = [].
+Proof. exact era_v2_only. Qed.
+Print Assumptions C02_v2_era_blocks.
+
+(* over any accepted chain of such blocks: a leaf marked spent at some point is never again accepted as the parent of a
+   siacoin input, a siafund input, a contract revision or a contract resolution *)
+Theorem C02_chain_spent_persists : forall H net vt pt se sd s bs s', chain H net vt pt se sd s bs s' ->
+  forall k, SpentAt (s_leaves s) k -> SpentAt (s_leaves s') k.
+Proof. exact chain_spent_persist. Qed.
+Print Assumptions C02_chain_spent_persists.
+
+Theorem C02_chain_no_respend : forall H net vt pt se sd s bs s' k, chain H net vt pt se sd s bs s' -> SpentAt (s_leaves s) k ->
+  forall m t, validate_txn2 H net vt pt se sd s' m t = Ok tt ->
+  forall i, In i (t2_sci t) -> p_leaf (i2_parent i) <> UNASSIGNED -> Z.to_nat (p_leaf (i2_parent i)) <> k.
+Proof. exact chain_no_respend. Qed.
+Print Assumptions C02_chain_no_respend.
+
+Theorem C02_chain_no_respend_siafund : forall H net vt pt se sd s bs s' k, chain H net vt pt se sd s bs s' -> SpentAt (s_leaves s) k ->
+  forall m t, validate_txn2 H net vt pt se sd s' m t = Ok tt ->
+  forall i, In i (t2_sfi t) -> p_leaf (f2_parent i) <> UNASSIGNED -> Z.to_nat (p_leaf (f2_parent i)) <> k.
+Proof. exact chain_no_respend_sf. Qed.
+Print Assumptions C02_chain_no_respend_siafund.
+
+Theorem C02_chain_no_rerevise_or_reresolve : forall H net vt pt se sd s bs s' k, chain H net vt pt se sd s bs s' -> SpentAt (s_leaves s) k ->
+  forall m t, validate_txn2 H net vt pt se sd s' m t = Ok tt ->
+  (forall rv, In rv (t2_rev t) -> Z.to_nat (p_leaf (r2_parent rv)) <> k) /\
+  (forall rs, In rs (t2_res t) -> Z.to_nat (p_leaf (rs_parent rs)) <> k).
+Proof. exact chain_no_rerevise. Qed.
+Print Assumptions C02_chain_no_rerevise_or_reresolve.
